@@ -20,6 +20,9 @@ recorded fitter / noise-ceiling calls *keyed by the content of their arguments*;
 every stored number.  Compared: evaluations (every entry, NaN positions), noise_ceiling,
 variances, dof.  The oracle (C04_lib.plain) is an independent plain-loop transcription of the
 property on the original arrays, plus the same-seed rerun.
+
+Round 4 — reuse sessions (C04_session): a case with key `session` is a list of steps on ONE set of
+objects; see the module docstring there.
 """
 import json
 import math
@@ -28,6 +31,7 @@ import numpy as np
 
 import lean
 from engines import C04_lib as L
+from engines import C04_session as S
 
 PROPERTY = 'C04'
 LEVEL = 'proof'
@@ -48,7 +52,11 @@ THEOREMS = [P + n for n in (
     'result_ns_random_partial', 'result_crossval_plain', 'result_attrs', 'result_shapes',
     'loops_fill_arrays', 'model_rows_fill_shape', 'crossval_rejects_iff',
     'usable_resample_sets_accepted', 'cov_lt_two_undefined', 'cov_single_obs_numerator',
-    'k_default_spec', 'nc_descriptor_spec', 'n_groups_def')]
+    'k_default_spec', 'nc_descriptor_spec', 'n_groups_def',
+    # round 4: reuse sessions
+    'input_write_leaves', 'call_leaves_content_unchanged', 'session_calls_independent',
+    'session_final_content', 'sessionSpec_length', 'sessionSpec_append_call', 'session_call_at',
+    'session_rerun_identical', 'inplace_write_changes_later_call')]
 RULE = ('one PRNG; stacks of 2-8 RDMs x 4-12 conditions (dissimilarities k/8, k integer) with int or '
         'str grouping descriptors on either axis or the default index; 1-3 models of the classes '
         'fixed / weighted / select / interpolate, theta given or fitted (default fitters, fit_regress, '
@@ -57,7 +65,13 @@ RULE = ('one PRNG; stacks of 2-8 RDMs x 4-12 conditions (dissimilarities k/8, k 
         'use_correction, n_pattern, n_rdm); draws recorded under a numpy seed (thorough: also all draw '
         'outcomes of a 2-RDM x 4-condition bootstrap injected).  A case is non-trivial when at least one '
         'resample differs from the data and at least one evaluation is not NaN; distinct = distinct '
-        '(routine, options, stack, models, seed).')
+        '(routine, options, stack, models, seed).  Round 4, reuse sessions: ONE data object, one list of model '
+        'objects and the parameter arrays handed to 2-3 successive routines (all 7 kinds; method orders corr / '
+        'spearman / rho-a before cosine etc.; same-seed reruns; the same theta arrays handed over again; in-place '
+        'user edits of a data row, of the parameter arrays, of a grouping descriptor between calls); every call '
+        'judged against the content of its moment, inputs bit-identical after every call, Results unchanged '
+        'at the end; mutable inputs are never shared between cases (every case builds its objects from its '
+        'own JSON numbers).')
 BRANCHES = ['routine:fixed', 'routine:bootstrap', 'routine:crossval', 'routine:bcv', 'routine:dual',
             'routine:random', 'routine:testset', 'bt:both', 'bt:rdm', 'bt:pattern',
             'boot_nc:true', 'boot_nc:false', 'nan_sample', 'ok_sample', 'grouped:rdm',
@@ -70,7 +84,7 @@ BRANCHES = ['routine:fixed', 'routine:bootstrap', 'routine:crossval', 'routine:b
             'desc:float', 'desc:float-collide-int', 'desc:bool', 'desc:negative', 'desc:array', 'desc:int64', 'desc:tuple',
             'models:4+', 'models:mixed3', 'N:large', 'N:2', 'k:default', 'n:default',
             'cv:nonrandom', 'sets:rejected', 'cov:undefined', 'fitcheck:select',
-            'fitcheck:optimize']
+            'fitcheck:optimize'] + S.SESSION_BRANCHES      # round 4: reuse sessions
 ASSUMPTIONS = [
     'all randomness of the routines comes from numpy.random (randint, shuffle; rand inside '
     'fit_optimize) — checked by the taps (every draw is recorded and replayed in the model) and by '
@@ -90,6 +104,8 @@ TRUSTED_EXTRA = [
 # ------------------------------------------------------------------ engine callbacks
 
 def run_impl(case):
+    if case.get('session'):
+        return S.run_impl(case)
     o = L.observe(case)
     if 'exc' in o:
         return {'exc': o['exc'], 'msg': o.get('msg')}
@@ -97,12 +113,16 @@ def run_impl(case):
 
 
 def model_requests(case):
+    if case.get('session'):
+        return S.model_requests(case)
     o = L.observe(case)
     req = L.model_request(case, o)
     return [req] if req is not None else []
 
 
 def model_result(case, answers):
+    if case.get('session'):
+        return S.model_result(case, answers)
     if not answers:
         return {'exc': L.expected_exception(case) or 'unmodelled'}
     a = answers[0]
@@ -115,6 +135,8 @@ def model_result(case, answers):
 
 
 def compare(case, impl, model):
+    if case.get('session'):
+        return S.compare(case, impl, model)
     if isinstance(model, dict) and 'model_error' in model:
         return f'model error {model}'
     if 'exc' in impl or 'exc' in model:
@@ -135,6 +157,11 @@ def features(case, impl):
 def nontrivial_key(case, impl):
     if not isinstance(impl, dict) or 'exc' in impl:
         return None
+    if case.get('session'):
+        if not any('res' in s and 'evals' in s['res'] for s in impl['session']):
+            return None
+        return ['session', json.dumps(case['steps'], sort_keys=True)[:400],
+                json.dumps(case['base']['vecs'])[:200]]
     f = L.features(case, impl)
     if 'ok_sample' not in f['branches'] and case['routine'] not in ('fixed',):
         return None
